@@ -882,6 +882,17 @@ func minimise(bin, scratch string, j *job, be, class string) vl.OracleFail {
 	if minimised && haveObs {
 		o = lastObs
 	}
+	if c.Pos == "cmdline" && !c.SyntaxBad {
+		// the program does not matter for a command-line failure: try the smallest one
+		tiny := map[string]string{c.Prog.Files[0].Path: "struct ZZ { 1: i32 a }\n"}
+		d := filepath.Join(scratch, "tiny-"+strings.ReplaceAll(c.Variant+class, "/", "_"))
+		if writeFiles(d, tiny) == nil {
+			if o2 := runBinary(bin, d, args); oracle(c.Valid, o2) == class {
+				files, o, minimised = tiny, o2, true
+			}
+		}
+		os.RemoveAll(d)
+	}
 	return vl.OracleFail{
 		Key:  failureKey(c.Rule, class, files, args),
 		What: fmt.Sprintf("rule %s (%s at %s, backend %s): %s", c.Rule, c.Variant, c.Pos, be, class),
